@@ -375,6 +375,12 @@ def shrink(model_bin, impl_bin, fam, lines, mode, sig=None):
         o0 = run_oracle_bin(model_bin, fam, [ls], [i0])[0]
         return m0, i0, o0
 
+    if mode == "oracle" and not getattr(fam, "shrink_oracle_failures", True):
+        # the oracle's verdict depends on a premise the script establishes as a whole (e.g. "everything
+        # the members sent was delivered"): dropping lines would fake a failure; keep the script whole
+        m0, i0, o0 = outs(lines)
+        return lines, m0, i0, o0
+
     def pred(ls):
         m0, i0, o0 = outs(ls)
         if mode == "diff":
